@@ -15,6 +15,8 @@ import (
 	"net"
 	"net/http"
 	"net/http/httptest"
+	"os"
+	"path/filepath"
 	"strings"
 	"sync"
 	"time"
@@ -195,6 +197,7 @@ func main() {
 			}
 		}
 	}
+	undecodableTwins(rep)
 	rep.Finish()
 }
 
@@ -397,4 +400,77 @@ func runSeq(rep *hx.Report, rng *hx.Rng, o *hx.Opts, dS3, iS3 bool, faultAt stri
 	if len(rep.Samples) < 3 {
 		rep.Sample(desc)
 	}
+}
+
+// undecodableTwins: out-of-line parts that are labelled base64 but do not decode (truncated or corrupt attachments) are still
+// somebody's content: two different ones, for two users, each read back as itself — whatever key the de-duplication uses
+func undecodableTwins(rep *hx.Report) {
+	dir, err := os.MkdirTemp(filepath.Dir(hxWorkDir()), "raven-verif-c15t-")
+	if err != nil {
+		return
+	}
+	defer os.RemoveAll(dir)
+	old, _ := os.Getwd()
+	os.Chdir(dir)
+	defer os.Chdir(old)
+	w, err := world.New(dir, "example.com")
+	if err != nil {
+		rep.Violate("broken-correspondence", "world", err.Error(), nil)
+		return
+	}
+	defer w.Close()
+	mk := func(user, tok, junk string) string {
+		var body strings.Builder
+		body.WriteString(tok + " " + junk + "\r\n")
+		for i := 0; body.Len() < 1500; i++ {
+			fmt.Fprintf(&body, "%s filler line %d ~!@ not base64 at all\r\n", tok, i)
+		}
+		return "From: a@example.org\r\nTo: " + user + "\r\nSubject: " + tok + "\r\nMIME-Version: 1.0\r\nContent-Type: multipart/mixed; boundary=tw\r\n\r\n--tw\r\nContent-Type: text/plain\r\n\r\nsee attachment\r\n--tw\r\nContent-Type: application/pdf; name=\"" + tok + ".pdf\"\r\nContent-Transfer-Encoding: base64\r\nContent-Disposition: attachment; filename=\"" + tok + ".pdf\"\r\n\r\n" + body.String() + "--tw--\r\n"
+	}
+	type tw struct{ user, tok string }
+	tws := []tw{{"ta@example.com", "TWIN-one"}, {"tb@example.com", "TWIN-two"}, {"ta@example.com", "TWIN-three"}}
+	for i, t := range tws {
+		rep.Case("undecodable-twin|"+t.tok, true)
+		_, data := w.Deliver("a@example.org", []string{t.user}, mk(t.user, t.tok, []string{"!!!", "=A=", "~~~~"}[i]))
+		if len(data) != 1 || !strings.HasPrefix(data[0], "250") {
+			rep.Hit("twin:refused")
+			continue
+		}
+	}
+	for _, t := range tws {
+		c := w.Login(t.user)
+		c.Cmd("SELECT INBOX")
+		for _, item := range []string{"BODY.PEEK[2]", "BODY.PEEK[]"} {
+			seq := ""
+			for _, l := range c.Cmd("SEARCH SUBJECT " + t.tok).Untagged {
+				if f := strings.Fields(l); len(f) == 3 {
+					seq = f[2]
+				}
+			}
+			if seq == "" {
+				continue
+			}
+			r := c.Cmd("FETCH " + seq + " (" + item + ")")
+			txt := strings.Join(r.Untagged, "\n")
+			for _, other := range tws {
+				if other.tok != t.tok && strings.Contains(txt, other.tok+" filler") {
+					rep.Violate("impl-violation", "de-duplication is invisible (Props.C15)", fmt.Sprintf("%s of message %s (user %s) returns the attachment of message %s: two different parts that do not decode as the base64 they are labelled were stored as one blob", item, t.tok, t.user, other.tok), []string{"twins"})
+					c.Close()
+					return
+				}
+			}
+			if !strings.Contains(txt, t.tok+" filler") {
+				rep.Violate("impl-violation", "out-of-line storage is invisible (Props.C15)", fmt.Sprintf("%s of message %s does not return its own attachment text", item, t.tok), []string{"twins"})
+				c.Close()
+				return
+			}
+			rep.Hit("twin:own-content")
+		}
+		c.Close()
+	}
+}
+
+func hxWorkDir() string {
+	d, _ := os.Getwd()
+	return d
 }
